@@ -45,6 +45,7 @@ def units(tier):
     us += [("b", si, c) for si in (2, 8, 13, 14, 16) for c in codecs]
     us += [("f", si, c) for si in (2, 8, 14, 15) for c in codecs]
     us += [("g", si, c) for si in (2, 8, 14, 15) for c in codecs]
+    us += [("h", c) for c in codecs]
     us += [("c", os.path.basename(f)) for f in sorted(glob.glob(os.path.join(REPO, "tests", "avro-files", "*.avro")))]
     us += [("d", first) for first in range(6)]
     return us
@@ -190,6 +191,49 @@ def part_f(res, fa, si, codec, tier, seen):
                 if p["meta"].get("avro.codec", b"null").decode() != codec or p["sync"] != marker:
                     res.add(Violation("c05.f", "header-changed-by-append", f"header codec/marker after append: {p['meta'].get('avro.codec')!r} {p['sync'].hex()} | {short(info, 300)}", info))
                 tiling(res, fa, data, info, len(want), p["hdr_end"], want)
+
+
+def part_h(res, fa, codec, seen):
+    """Files written through the Writer class while some records are refused (non-conforming
+    records raise part-way or are rejected by validation): the independent parser must find
+    exactly the accepted records, and every block's payload must be exactly its counted records."""
+    from fastavro._write_py import Writer
+
+    S2 = {"type": "record", "name": "Rw", "fields": [{"name": "a", "type": "long"}, {"name": "b", "type": "string"}, {"name": "c", "type": ["null", "int"], "default": None}]}
+    node, defs = names.resolve(S2)
+    good = [{"a": 1, "b": "x", "c": 5}, {"a": -70, "b": "yy" * 40}, {"a": 8192, "b": ""}]
+    bads = [{"a": 1, "b": 5}, {"a": 1, "b": "ok", "c": "no"}, {"a": "no", "b": "x"}]
+    exp = cont.expected(node, defs, good)
+    marker = cont.sync_marker()
+    for iv in (1, 30, 16000):
+        for validator in (False, True):
+            for where in (0, 1, 2, 3):
+                info = {"part": "h", "schema": S2, "records": good, "codec": codec, "sync_interval": iv, "validator": validator, "refused_before": where}
+                note_case(info)
+                res.evals += 1
+                fo = io.BytesIO()
+                w = Writer(fo, copy.deepcopy(S2), codec=codec, sync_interval=iv, sync_marker=marker, validator=validator)
+                for i, g in enumerate(good + [None]):
+                    if i == where:
+                        for b in bads:
+                            try:
+                                w.write(copy.deepcopy(b))
+                            except Exception:
+                                pass
+                    if g is not None:
+                        w.write(copy.deepcopy(g))
+                w.flush()
+                data = fo.getvalue()
+                seen.add(data)
+                try:
+                    p = container.parse(data)
+                    got, _ = container.records(p)
+                except Exception as e:
+                    res.add(Violation("c05.h", f"independent-parse-failed:{type(e).__name__}", f"independent parser rejects a file written around refused records: {e} | {short(info, 400)}", info))
+                    continue
+                if len(got) != len(exp) or not all(same(a, b) for a, b in zip(got, exp)):
+                    res.add(Violation("c05.h", "independent-records-differ", f"independent parser recovers {short(got, 200)} expected {short(exp, 200)} | {short(info, 400)}", info))
+                tiling(res, fa, data, info, len(exp), p["hdr_end"], exp)
 
 
 def part_g(res, fa, si, codec, tier, seen):
@@ -379,6 +423,8 @@ def run_unit(unit, tier):
         part_f(res, fa, unit[1], unit[2], tier, seen)
     elif unit[0] == "g":
         part_g(res, fa, unit[1], unit[2], tier, seen)
+    elif unit[0] == "h":
+        part_h(res, fa, unit[1], seen)
     elif unit[0] == "c":
         part_c(res, fa, unit[1], seen)
     elif unit[0] == "d":
@@ -400,6 +446,9 @@ def replay(case):
         is_avro_check(res, fa, case["data"], case)
     elif part == "c":
         part_c(res, fa, case["file"], set())
+    elif part == "h":
+        part_h(res, fa, case["codec"], set())
+        return res.violations
     elif part == "g":
         si = [i for i, (n, r) in enumerate(cont.top_schemas()) if r == case["schema"]][0]
         part_g(res, fa, si, case["codec"], "quick", set())
